@@ -830,7 +830,7 @@ func (c *Ctx) ownerSinkRule() int {
 			// a writer is legitimate when it is the place that applies the escaping: it tests the byte
 			// it emits (or its shift register) against 0xFF / 0xFF00. Names are not frozen: renaming or
 			// splitting the owner keeps the rule quiet as long as every writer escapes.
-			allowed := len(uses) > 0 && testsFF(uses[0].Parent())
+			allowed := len(uses) > 0 && c.escapesOrOnlyCalledByEscapers(uses[0].Parent(), 0, map[*ssa.Function]bool{})
 			if !allowed {
 				okAll = false
 				var fnv *ssa.Function
@@ -855,6 +855,45 @@ func (c *Ctx) ownerSinkRule() int {
 		}
 	}
 	return n
+}
+
+// escapesOrOnlyCalledByEscapers: fn applies the escaping itself (tests against 0xFF), or it is a raw
+// emit helper every one of whose callers does (writeByte -> emit): the obligation moves to the callers.
+func (c *Ctx) escapesOrOnlyCalledByEscapers(fn *ssa.Function, depth int, visiting map[*ssa.Function]bool) bool {
+	if fn == nil {
+		return false
+	}
+	if testsFF(fn) {
+		return true
+	}
+	if depth > 2 || visiting[fn] {
+		return false
+	}
+	visiting[fn] = true
+	defer delete(visiting, fn)
+	n := 0
+	for _, caller := range c.scopeFuncs() {
+		for _, b := range caller.Blocks {
+			for _, ins := range b.Instrs {
+				call, ok := ins.(ssa.CallInstruction)
+				if !ok || call.Common().StaticCallee() != fn {
+					continue
+				}
+				n++
+				if !c.escapesOrOnlyCalledByEscapers(caller, depth+1, visiting) {
+					return false
+				}
+			}
+		}
+	}
+	if n == 0 {
+		return false
+	}
+	// the helper must not be reachable any other way (exported)
+	if fn.Object() != nil && fn.Object().Exported() {
+		return false
+	}
+	return true
 }
 
 // sinkUses: instructions that write through (or leak) the sink stored at field address fa.
